@@ -1,8 +1,9 @@
 """C14 (see DESIGN.md section 6)."""
 from vlib.framework import PUnit, LUnit, BUnit
 from bounded import b_genparams as B
+from contracts import map_to_molecule as MM
 
-P_UNITS = []
+P_UNITS = [PUnit("tag-exclusions", [MM.TAG_EXCL], MM.REG)]
 
 
 def build(tier, seed):
